@@ -8,6 +8,7 @@ import CifModel.Lemmas.NumbMisc
 import CifModel.Lemmas.NumbLink
 import CifModel.Lemmas.NumbSyntax
 import CifModel.Lemmas.NumbRoundtrip
+import CifModel.Lemmas.NumbAutoinit
 /-
   Property C10 — number text and double values convert with correct rounding.
 
@@ -261,13 +262,28 @@ theorem C10_autoinit_text_roundtrip (val su : Bin) (rule : Nat) (msp : Int) (q :
     · exact Lemmas.NumbRoundtrip.initNumb_roundtrip _ _ _ _ _ q t neg digits suD sc h
     · exact Lemmas.NumbRoundtrip.initNumb_roundtrip _ _ _ _ _ q t neg digits suD sc h
 
-/-- FULL statement not proved in Lean (checked on every run by the `initnumb` family: the oracle recomputes the largest
-    admissible scale with exact rationals) -/
-def C10_autoinit_scale_full : Prop :=
-  ∀ (val su : Bin) (rule : Nat) (msp : Int) (q : Bool) (t : Str) (neg : Bool) (digits : List Nat) (suD : Option (List Nat)) (sc : Int),
-    su.m ≠ 0 → autoinitNumb val su rule msp = .ok (V.numb q t neg digits suD sc) →
+/-- **C10_autoinit_scale** (∀ finite doubles `su ≠ 0` — binary exponent ≥ −1074, as for every double —, ∀ values, su
+    rules and values of `MSP`): when `cif_value_autoinit_numb` succeeds for a non-zero uncertainty, the scale it chose
+    is the LARGEST scale at which the su, rounded half-even to an integer, does not exceed the su rule: the rounded su
+    at `sc` is `≤ rule`, at `sc + 1` it is `> rule` (and the rounded su is monotone in the scale). -/
+theorem C10_autoinit_scale (val su : Bin) (rule : Nat) (msp : Int) (q : Bool) (t : Str) (neg : Bool)
+    (digits : List Nat) (suD : Option (List Nat)) (sc : Int) (hm : su.m ≠ 0) (he : -1074 ≤ su.e)
+    (h : autoinitNumb val su rule msp = .ok (V.numb q t neg digits suD sc)) :
     roundHalfEven (scaledNum su.m su.e sc) (scaledDen su.m su.e sc) ≤ rule ∧
-    rule < roundHalfEven (scaledNum su.m su.e (sc + 1)) (scaledDen su.m su.e (sc + 1))
+    rule < roundHalfEven (scaledNum su.m su.e (sc + 1)) (scaledDen su.m su.e (sc + 1)) := by
+  unfold autoinitNumb at h
+  by_cases hc : (su.neg = true ∧ su.m ≠ 0) ∨ rule < 2
+  · rw [if_pos hc] at h; cases h
+  · rw [if_neg hc, if_neg hm] at h
+    have hr : 2 ≤ rule := by
+      rcases Nat.lt_or_ge rule 2 with h2 | h2
+      · exact absurd (Or.inr h2) hc
+      · exact h2
+    have hsc : sc = autoScale su rule := (C10_init_correctly_rounded val su _ _ msp q t neg digits suD sc h).1
+    have := Lemmas.NumbAutoinit.autoScale_largest su rule hm he hr
+    rw [hsc, (Lemmas.NumbAutoinit.scaled_uniform su.m su.e _).1, (Lemmas.NumbAutoinit.scaled_uniform su.m su.e _).2,
+      (Lemmas.NumbAutoinit.scaled_uniform su.m su.e _).1, (Lemmas.NumbAutoinit.scaled_uniform su.m su.e _).2]
+    exact this
 
 /-! ### non-vacuity and regression examples -/
 
